@@ -383,6 +383,12 @@ def c02_5(ctx):
             axioms=('A1',))
 def c02_6(ctx):
     fn = ctx.repo.fn('_dictable:dictable.join')
+    for f0 in (fn, ctx.repo.fn('_dictable:dictable.xor')):
+        none_not_falsy(ctx, f0, ['lcols', 'rcols'], 'an explicitly empty key list means "no key" (the full cross product); treating it like None turns it into a join on the shared column names')
+        for nm in ('lcols', 'rcols'):
+            dflt = [s for s in f0.body if isinstance(s, ast.If) and N(s.test) == NS('%s is None' % nm)]
+            if not dflt:
+                ctx.fail(f0, f0.node, 'the default of %s is not resolved under `%s is None`' % (nm, nm))
     # no-key branch
     ifs = [n for n in fn.body if isinstance(n, ast.If) and N(n.test) in ('len(cols)', NS('len(cols) > 0'), NS('len(cols) != 0'))]
     ctx.need(len(ifs) == 1, 'the `if len(cols)` split of join not found')
